@@ -16,7 +16,7 @@ VALID = ['B1', 'B2', 'N1', 'S', 'V', 'P', 'NB', 'x1', 'x2', 'x3', 'y1',
 INVALID = ['!dupsym', '!dupsym2', '!empty', '!nonstr', '!S2', '!V2',
            '!B1again', '!othertype', '!otherdim', '!wrongbase',
            '!wrongcount', '!B3dupref', '!derivebase', '!NB2', '!P2',
-           '!dupderive', '!dupterm']
+           '!dupderive', '!dupterm', '!Pdupsym', '!Sdupsym']
 QUICK_INVALID = ['!dupsym', '!S2', '!othertype', '!otherdim', '!wrongbase',
                  '!empty', '!dupderive', '!dupterm']
 
